@@ -220,7 +220,10 @@ pub fn check_loc(r: &mut Recorder, input: &[u8], exp: &Value) {
                     }
                 }
                 "reject" => {
-                    r.dis(&["C03"], "loc-accepts-ill-formed", det(input, json!({"zone":"reject","why": exp["why"]}), json!({"ser": ser, "val": p})));
+                    // C03; and C04 too when what is printed is not even made of letters, digits and '-' or is longer than the input
+                    let lexical_ok = ser.bytes().all(|c| c.is_ascii_alphanumeric() || c == b'-') && ser.len() <= input.len();
+                    let props: &[&str] = if lexical_ok { &["C03"] } else { &["C03", "C04"] };
+                    r.dis(props, "loc-accepts-ill-formed", det(input, json!({"zone":"reject","why": exp["why"]}), json!({"ser": ser, "val": p})));
                 }
                 _ => {}
             }
